@@ -1,0 +1,114 @@
+// SPDX-FileCopyrightText: 2026 The Pion community <https://pion.ly>
+// SPDX-License-Identifier: MIT
+
+//go:build verif
+
+package ice
+
+import (
+	"net/netip"
+	"time"
+
+	"github.com/pion/logging"
+	"github.com/pion/stun/v3"
+)
+
+// Exports for the external verification harness (/verif). Built only with -tags verif.
+// Each function runs one of the agent's small decision functions on bare objects, so that the
+// harness can compare it with its translation on boundary values.
+
+func verifLogger() logging.LeveledLogger {
+	return logging.NewDefaultLoggerFactory().NewLogger("verif")
+}
+
+// VerifShouldAcceptNomination runs controlledSelector.shouldAcceptNomination and reports the
+// remembered value afterwards.
+func VerifShouldAcceptNomination(hasValue bool, value uint32, hasLast bool, last uint32) (bool, bool, uint32) {
+	sel := &controlledSelector{agent: &Agent{}, log: verifLogger()}
+	if hasLast {
+		l := last
+		sel.lastNomination = &l
+	}
+	var nomination *uint32
+	if hasValue {
+		v := value
+		nomination = &v
+	}
+	accepted := sel.shouldAcceptNomination(nomination)
+	if sel.lastNomination == nil {
+		return accepted, false, 0
+	}
+
+	return accepted, true, *sel.lastNomination
+}
+
+// VerifShouldSwitchSelectedPair runs controlledSelector.shouldSwitchSelectedPair on pairs whose
+// priorities are the given values.
+func VerifShouldSwitchSelectedPair(
+	hasSelected, samePair, hasValue, lite, checkPriority bool, selectedPriority, pairPriority uint64,
+) bool {
+	sel := &controlledSelector{
+		agent: &Agent{lite: lite, enableUseCandidateCheckPriority: checkPriority},
+		log:   verifLogger(),
+	}
+	pair := &CandidatePair{}
+	pair.setPriorityOverride(pairPriority)
+	var selected *CandidatePair
+	if hasSelected {
+		if samePair {
+			selected = pair
+		} else {
+			selected = &CandidatePair{}
+			selected.setPriorityOverride(selectedPriority)
+		}
+	}
+	var nomination *uint32
+	if hasValue {
+		v := uint32(1)
+		nomination = &v
+	}
+
+	return sel.shouldSwitchSelectedPair(pair, selected, nomination)
+}
+
+// VerifConnectionStateForDisconnection runs Agent.connectionStateForDisconnection.
+func VerifConnectionStateForDisconnection(
+	disconnectedTimeout time.Duration, state ConnectionState, disconnectedTime, totalTimeToFailure time.Duration,
+) ConnectionState {
+	a := &Agent{disconnectedTimeout: disconnectedTimeout, connectionState: state}
+
+	return a.connectionStateForDisconnection(disconnectedTime, totalTimeToFailure)
+}
+
+// VerifInitialCheckingTimeout runs Agent.initialCheckingTimeout.
+func VerifInitialCheckingTimeout(failedTimeout, disconnectedTimeout time.Duration, lite, explicit bool) time.Duration {
+	a := &Agent{
+		failedTimeout: failedTimeout, disconnectedTimeout: disconnectedTimeout,
+		lite: lite, disconnectedTimeoutExplicit: explicit,
+	}
+
+	return a.initialCheckingTimeout()
+}
+
+// VerifCanHandleInbound runs canHandleInbound on a message of the given method and class.
+func VerifCanHandleInbound(method stun.Method, class stun.MessageClass) bool {
+	return canHandleInbound(&stun.Message{Type: stun.MessageType{Method: method, Class: class}})
+}
+
+// VerifNeedsToCheckPriorityOnNominated runs Agent.needsToCheckPriorityOnNominated.
+func VerifNeedsToCheckPriorityOnNominated(lite, checkPriority bool) bool {
+	a := &Agent{lite: lite, enableUseCandidateCheckPriority: checkPriority}
+
+	return a.needsToCheckPriorityOnNominated()
+}
+
+// VerifResponseSymmetric runs responseSymmetric for a request sent over requestNetworkType to
+// destination, answered from source on a local candidate of localNetworkType.
+func VerifResponseSymmetric(
+	requestNetworkType, localNetworkType NetworkType, destination, source netip.AddrPort,
+) bool {
+	req := &bindingRequest{networkType: requestNetworkType, destination: destination}
+	local := &CandidateHost{candidateBase: candidateBase{networkType: localNetworkType}}
+
+	return responseSymmetric(req, local, source)
+}
